@@ -27,7 +27,11 @@ ASSUME = ['src/fs/rock/*, src/ipc/StoreMap.cc, src/store_rebuild.cc of the curre
 
 
 def _build(ctx):
-    return seq.build(ctx, 'tests/testRock', ['C57_rock.cc'])
+    # the testRock set stubs store_rebuild.cc (its storeRebuildLoadEntry() pretends every slot is zero):
+    # link the tree's real store_rebuild.cc instead; main.cc's storeRebuildStart() also lives in
+    # tests/stub_store_client.o, so the (uncalled) real one is renamed
+    return seq.build(ctx, 'tests/testRock', ['C57_rock.cc'], tree_sources=['store_rebuild.cc'],
+                     tree_flags=['-DstoreRebuildStart=storeRebuildStart_notLinked'], drop_objects=[r'stub_store_rebuild\.o$'])
 
 
 def _cleanup(ctx):
